@@ -571,6 +571,14 @@ Definition parse_time_range (loc now1 now2 : Z) (a b : str) : res (Z * Z) :=
   res_bind (last_of loc now2 b) (fun last =>
   if last <? first then Err else Ok (first, last))).
 
+(* ParseTimeRangeCollectErrors: same steps, but every failure is recorded and parsing goes on;
+   a failed end stays 0. Recorded: 1 = first is malformed, 2 = last is malformed,
+   3 = the lower bound is greater than the upper bound *)
+Definition parse_time_range_collect (loc now1 now2 : Z) (a b : str) : Z * Z * list Z :=
+  let '(first, e1) := match first_of loc now1 a with Ok v => (v, []) | _ => (0, [1]) end in
+  let '(last, e2) := match last_of loc now2 b with Ok v => (v, []) | _ => (0, [2]) end in
+  (first, last, e1 ++ e2 ++ (if last <? first then [3] else [])).
+
 (* ------------------------------------------------------------------ rendering relative specifications *)
 (* decimal numeral without leading zeros *)
 Fixpoint dec_fuel (f : nat) (n : Z) : str :=
